@@ -1,6 +1,7 @@
 package graphql
 
 import (
+	"github.com/graphql-go/graphql/verifhook"
 	"context"
 	"fmt"
 	"reflect"
@@ -428,6 +429,8 @@ func (gt *Object) Fields() FieldDefinitionMap {
 		return gt.fields
 	}
 
+	verifhook.Count(verifhook.ObjectFieldsBuild)
+	verifhook.Yield(verifhook.ObjectFieldsBuild)
 	var configureFields Fields
 	switch fields := gt.typeConfig.Fields.(type) {
 	case Fields:
@@ -446,6 +449,8 @@ func (gt *Object) Interfaces() []*Interface {
 		return gt.interfaces
 	}
 
+	verifhook.Count(verifhook.ObjectInterfacesBuild)
+	verifhook.Yield(verifhook.ObjectInterfacesBuild)
 	var configInterfaces []*Interface
 	switch iface := gt.typeConfig.Interfaces.(type) {
 	case InterfacesThunk:
@@ -744,6 +749,8 @@ func (it *Interface) Fields() (fields FieldDefinitionMap) {
 		return it.fields
 	}
 
+	verifhook.Count(verifhook.InterfaceFieldsBuild)
+	verifhook.Yield(verifhook.InterfaceFieldsBuild)
 	var configureFields Fields
 	switch fields := it.typeConfig.Fields.(type) {
 	case Fields:
@@ -830,6 +837,8 @@ func (ut *Union) Types() []*Object {
 		return ut.types
 	}
 
+	verifhook.Count(verifhook.UnionTypesBuild)
+	verifhook.Yield(verifhook.UnionTypesBuild)
 	var unionTypes []*Object
 	switch utype := ut.typeConfig.Types.(type) {
 	case UnionTypesThunk:
@@ -1054,6 +1063,8 @@ func (gt *Enum) getValueLookup() map[interface{}]*EnumValueDefinition {
 	if len(gt.valuesLookup) > 0 {
 		return gt.valuesLookup
 	}
+	verifhook.Count(verifhook.EnumValueLookupBuild)
+	verifhook.Yield(verifhook.EnumValueLookupBuild)
 	valuesLookup := map[interface{}]*EnumValueDefinition{}
 	for _, value := range gt.Values() {
 		valuesLookup[value.Value] = value
@@ -1066,6 +1077,8 @@ func (gt *Enum) getNameLookup() map[string]*EnumValueDefinition {
 	if len(gt.nameLookup) > 0 {
 		return gt.nameLookup
 	}
+	verifhook.Count(verifhook.EnumNameLookupBuild)
+	verifhook.Yield(verifhook.EnumNameLookupBuild)
 	nameLookup := map[string]*EnumValueDefinition{}
 	for _, value := range gt.Values() {
 		nameLookup[value.Name] = value
@@ -1204,6 +1217,7 @@ func (gt *InputObject) AddFieldConfig(fieldName string, fieldConfig *InputObject
 
 func (gt *InputObject) Fields() InputObjectFieldMap {
 	if !gt.init {
+		verifhook.Count(verifhook.InputObjectFieldsBuild)
 		gt.fields = gt.defineFieldMap()
 	}
 	return gt.fields
